@@ -501,11 +501,13 @@ def replay(path):
                     cmd += ["--features", unit["features"]]
                 cmd += ["--", tname]
                 rc, out, to, dt = krun._run_group(cmd, ws, 900, env=krun.kani_env())
-                print(out[-3000:])
-                if to or (rc != 0 and ("panicked" in out or "FAILED" in out)):
+                verdict = krun.native_verdict(out, tname, to)
+                mm2 = re.search(r"(running \d+ tests?.*?test result:[^\n]*)", out, re.S)
+                print((mm2.group(1) if mm2 else out[-2000:])[-2500:])
+                if verdict == "failed":
                     print(f"REPRODUCED property={pid} obligation={rec['obligation']} (native execution of the recorded input fails on the current tree)")
                     return 1
-                if rc == 0:
+                if verdict == "passed":
                     print(f"NOT-REPRODUCED property={pid} obligation={rec['obligation']} (recorded input passes on the current tree)")
                     return 0
                 log("native replay did not build; falling back to re-verification")
